@@ -515,16 +515,32 @@ Proof.
   apply IH; [apply add_env_inv; [exact I|apply M; left; reflexivity]|]. intros x Hx. apply M. right. exact Hx.
 Qed.
 
-Lemma add_multiple_env_spec init entries :
+Lemma gen_add_multiple_env_spec init entries :
   env_known_class init entries = false ->
-  add_multiple_env init entries = (init ++ fold_left upd entries [])%list.
+  gen_add_multiple_env init entries = (init ++ fold_left upd entries [])%list.
 Proof.
-  intro K. unfold add_multiple_env.
+  intro K. unfold gen_add_multiple_env.
   pose (miss := fun n => emap_get n (env_cache init) = None).
   assert (I0 : env_inv init [] miss (init, env_cache init)).
   { split; cbn [fst snd]; [rewrite app_nil_r; reflexivity|]. intros n Hn. exact Hn. }
   destruct (add_envs_inv init miss entries [] _ I0) as [F _]; [|exact F].
   intros e He. apply (miss_of_unknown init entries e K He).
+Qed.
+(* after dropEnv no entry of the OCI env is named by the edits *)
+Lemma drop_env_unknown init entries : env_known_class (drop_env init entries) entries = false.
+Proof.
+  unfold env_known_class, drop_env, env_names. induction init as [|x r IH]; cbn [filter existsb]; [reflexivity|].
+  destruct (mem_s (env_name x) (map env_name entries)) eqn:M; cbn [negb]; [exact IH|].
+  cbn [existsb]. rewrite M, IH. reflexivity.
+Qed.
+Lemma add_multiple_env_spec init entries :
+  add_multiple_env init entries = (drop_env init entries ++ fold_left upd entries [])%list.
+Proof. unfold add_multiple_env. apply gen_add_multiple_env_spec. apply drop_env_unknown. Qed.
+
+Lemma add_multiple_env_nil env : add_multiple_env env [] = env.
+Proof.
+  unfold add_multiple_env, gen_add_multiple_env, drop_env. cbn [fold_left fst map mem_s existsb negb].
+  induction env as [|x r IH]; cbn [filter]; [reflexivity|rewrite IH; reflexivity].
 Qed.
 
 (* what replace-or-append computes *)
@@ -590,11 +606,12 @@ Proof.
   cbn [orb] in H. destruct (IH H) as [v Hv]. discriminate.
 Qed.
 
-Theorem env_post_holds init entries :
+(* the generator alone meets the postcondition when no entry of the OCI env is named by the edits *)
+Theorem gen_env_post_holds init entries :
   env_known_class init entries = false ->
-  env_post init entries (add_multiple_env init entries) = true.
+  env_post init entries (gen_add_multiple_env init entries) = true.
 Proof.
-  intro K. rewrite add_multiple_env_spec by exact K. unfold env_post.
+  intro K. rewrite gen_add_multiple_env_spec by exact K. unfold env_post.
   set (U := fold_left upd entries []). set (named := env_names entries).
   assert (Hinit : forall x, In x init -> mem_s (env_name x) named = false).
   { intros x Hx. unfold env_known_class in K. destruct (mem_s (env_name x) named) eqn:M; [|reflexivity].
@@ -619,6 +636,25 @@ Proof.
     unfold named_by at 1. destruct (String.eqb (env_name x) k) eqn:E.
     + apply String.eqb_eq in E. subst k. rewrite Hinit in Mk by (left; reflexivity). discriminate.
     + apply IH. intros y Hy. apply Hinit. right. exact Hy.
+Qed.
+
+(* the entries not named by the edits are the same in the OCI env and in what dropEnv leaves of it *)
+Lemma drop_env_others init entries :
+  filter (fun e => negb (mem_s (env_name e) (env_names entries))) (drop_env init entries) =
+  filter (fun e => negb (mem_s (env_name e) (env_names entries))) init.
+Proof.
+  unfold drop_env, env_names. induction init as [|x r IH]; cbn [filter]; [reflexivity|].
+  destruct (negb (mem_s (env_name x) (map env_name entries))) eqn:M; cbn [filter]; rewrite ?M, IH; reflexivity.
+Qed.
+
+(* Apply's environment step, for EVERY OCI env and every entry list: each variable named by the edits is defined exactly once,
+   with the value of its last edit; every other entry is kept, in order *)
+Theorem env_post_holds init entries :
+  env_post init entries (add_multiple_env init entries) = true.
+Proof.
+  pose proof (gen_env_post_holds (drop_env init entries) entries (drop_env_unknown init entries)) as H.
+  unfold add_multiple_env. unfold env_post in *. apply andb_true_iff in H as [H1 H2]. apply andb_true_iff. split; [|exact H2].
+  rewrite <- (drop_env_others init entries). exact H1.
 Qed.
 
 (* ------------------------------------------------------------------------------------------ *)
@@ -667,7 +703,7 @@ Proof.
   set (ns := somes (e_nodes e)) in *. set (ms0 := somes (e_mounts e)) in *. set (hs := somes (e_hooks e)) in *.
   assert (E1 : match e_env e with [] => o | env => set_env o (add_multiple_env (o_env o) env) end =
                set_env o (add_multiple_env (o_env o) (e_env e))).
-  { destruct (e_env e); [|reflexivity]. unfold add_multiple_env. cbn [fold_left fst]. rewrite set_env_same. reflexivity. }
+  { destruct (e_env e); [|reflexivity]. rewrite add_multiple_env_nil, set_env_same. reflexivity. }
   rewrite E1. clear E1. rewrite Vn. rewrite apply_nodes_spec.
   cbn [set_env o_uid o_gid o_env o_gids o_mounts o_hooks o_devices o_cgroup o_rdt o_rest].
   destruct (expect_all host (o_uid o) (o_gid o) ns) as [pairs|]; [|reflexivity].
@@ -741,13 +777,13 @@ Theorem apply_meets_spec host e o :
   (snd r = 0 <-> exists devs, all_some (map (expected_dev host (o_uid o) (o_gid o)) (somes (e_nodes e))) = Some devs) /\
   (snd r = 0 ->
      apply_post_but_env host e o (fst r) = true /\
-     (env_known_class (o_env o) (e_env e) = false -> env_post (o_env o) (e_env e) (o_env (fst r)) = true)).
+     env_post (o_env o) (e_env e) (o_env (fst r)) = true).
 Proof.
   intros W V. cbn zeta. pose proof (apply_closed_form host e o V) as C.
   rewrite expect_all_devs. destruct (expect_all host (o_uid o) (o_gid o) (somes (e_nodes e))) as [pairs|] eqn:E.
   - rewrite C. cbn [fst snd option_map]. split; [discriminate|]. split; [split; [eexists; reflexivity|reflexivity]|].
     intros _. split; [apply apply_result_post; assumption|].
-    intro K. unfold apply_result. cbn [o_env]. apply env_post_holds. exact K.
+    unfold apply_result. cbn [o_env]. apply env_post_holds.
   - rewrite C. cbn [option_map]. split; [discriminate|]. split; [split; [discriminate|intros [d Hd]; discriminate]|discriminate].
 Qed.
 
@@ -763,7 +799,7 @@ Theorem apply_frame host e o pairs :
 Proof.
   intro E. cbn zeta. unfold apply_result. cbn [o_env o_uid o_gid o_gids o_mounts o_hooks o_devices o_cgroup o_rdt o_rest].
   repeat split.
-  - intros ->. reflexivity.
+  - intros ->. apply add_multiple_env_nil.
   - rewrite H in E. cbn in E. inversion E. reflexivity.
   - rewrite H in E. cbn in E. inversion E. unfold rules_of. cbn. apply app_nil_r.
   - intros ->. reflexivity.
@@ -772,7 +808,7 @@ Proof.
   - intros ->. reflexivity.
 Qed.
 
-(* the env part is genuinely violated inside the known-finding class: the dependency duplicates the variable *)
-Theorem env_post_refuted : exists init entries,
-  env_known_class init entries = true /\ env_post init entries (add_multiple_env init entries) = false.
+(* why Apply drops the variables first: the generator alone duplicates a variable the OCI env already defines *)
+Theorem gen_env_post_refuted : exists init entries,
+  env_known_class init entries = true /\ env_post init entries (gen_add_multiple_env init entries) = false.
 Proof. exists ["FOO=1"], ["FOO=2"]. split; vm_compute; reflexivity. Qed.
